@@ -239,6 +239,27 @@ pub fn configs(tier: Tier, judge: u32, liveness: bool) -> Vec<OutCfg> {
                 });
             }
         }
+        // two send futures of one task created before either is polled (join): the window must hold for them too
+        if !liveness {
+            for (cap, senders) in [(1u16, vec![SK::Q1Join]), (1, vec![SK::Q1Join, SK::Q1]), (2, vec![SK::Q1Join, SK::Q1Join])] {
+                v.push(OutCfg {
+                    ep: ep_for(EpCfg::new(ver, role), cap, false),
+                    cap,
+                    senders,
+                    cancels: 0,
+                    batch: false,
+                    bp: 0,
+                    peer: PeerMode::Correct,
+                    judge,
+                    prologue: 0,
+                    peer_max_packet: 0,
+                    inbound: 0,
+                    may_close: false,
+                    inbound_faults: false,
+                    cancel_inflight: false,
+                });
+            }
+        }
         // QoS 2 sends whose receipt is dropped instead of released: PUBREL is written by the drop, nobody awaits
         // PUBCOMP, and the slot it frees must still wake the next parked sender (seeded change C13_r5)
         for (cap, senders) in [(1u16, vec![SK::Q2Drop, SK::Q1]), (1, vec![SK::Q2Drop, SK::Ready, SK::Q1]), (2, vec![SK::Q2Drop, SK::Q1, SK::Q1])] {
